@@ -292,6 +292,19 @@ def d3_flags(ctx, obs):
     fs = obs.func('Obs.__str__')
     r = [s for s in statements(fs) if isinstance(s, ast.Return)]
     ctx.check(rule, 'obs.py:Obs.__str__', len(r) == 1 and unparse(r[0].value) == '_format_uncertainty(self.value, self._dvalue)', 'str = value(error) with the default significance', 'str returns %s' % [unparse(x.value) for x in r])
+    for nm_ in ('CObs.__str__', 'CObs.__repr__'):
+        try:
+            fs_ = obs.func(nm_)
+        except Exception:
+            continue
+        strs = [c for c in walk(fs_) if isinstance(c, ast.Call) and call_name(c) in ('str', 'repr', 'format') and c.args]
+        fvals = [x.value for x in walk(fs_) if isinstance(x, ast.FormattedValue)]
+        shown = [unparse(c.args[0]) for c in strs] + [unparse(v) for v in fvals]
+        parts = [x for x in shown if x not in ('self.real', 'self.imag') and ('self.real' in x or 'self.imag' in x)]
+        if (strs or fvals) and any('self.real' in x or 'self.imag' in x for x in shown):
+            ctx.check(rule, 'obs.py:%s#parts-printed-as-they-are' % nm_, not parts and any(x == 'self.imag' for x in shown) and any(x == 'self.real' for x in shown),
+                      'real and imaginary part are printed as the analysed observables they are',
+                      'prints %s: an expression of a part is a new observable without error analysis and prints as a plain number (the error is lost)' % (parts or shown), obs.loc(fs_))
     fc = obs.func('CObs.__format__')
     r = [s for s in statements(fc) if isinstance(s, ast.Return)]
     ok = len(r) == 1 and isinstance(r[0].value, ast.JoinedStr) and [unparse(x.value) for x in r[0].value.values if isinstance(x, ast.FormattedValue)] == ['self.real', 'self.imag']
